@@ -8,12 +8,11 @@ CONSTANTS
   InitEpochs = 0
   ReaderLag = 0
   RecheckEpochAfterBegin = TRUE
-  FlagHeldThroughDbWrite = FALSE
+  FlagHeldThroughDbWrite = TRUE
   RootHashBeforeCommit = TRUE
   PrevEpochChecked = TRUE
-  ExportSched = FALSE
-VIEW View
+  ExportSched = TRUE
 INIT MCInit
 NEXT MCNext
-INVARIANTS EpochsDistinct ReturnedPairsStayPublished FinalEqualsSerial NoTxnLeftOpen
+INVARIANTS EpochsDistinct ReturnedPairsStayPublished FinalEqualsSerial NoTxnLeftOpen ExportAtEnd
 CHECK_DEADLOCK FALSE
